@@ -127,6 +127,19 @@ func Tag(tag string)   {}
 // that a result does not depend on Go's unspecified map iteration order. Natively Go's own random order applies.
 func MapOrder(reverse bool) {}
 
+// FsyncCalls: number of fileutil.Fdatasync/Fsync calls so far on this path (gosym's file model); -1 natively.
+func FsyncCalls() int { return -1 }
+
+// SymbolicOnly declares that the harness depends on environment models that do not exist natively (an opaque
+// *os.File, a captured proposal): counterexamples are reported from the symbolic run and not replayed.
+// It returns true under gosym and false natively.
+func SymbolicOnly() bool { return false }
+
+// NoteBool records a fact that only the symbolic run can compute (e.g. "the leader-side validator proposed the
+// command", observed through a model of the proposal path). Under gosym it returns v and stores it in the
+// replay file; natively v is ignored and the stored value is returned.
+func NoteBool(name string, v bool) bool { return next(name, "note")&1 == 1 }
+
 // Symbolic reports whether the harness runs under gosym in symbolic mode.
 func Symbolic() bool { return false }
 
